@@ -470,6 +470,14 @@ Lemma source_pool_shape_ok :
   Gen_pivot_footprint.pool_join_predicate && Gen_pivot_footprint.pool_enqueue_locked = true.
 Proof. vm_compute. reflexivity. Qed.
 
+Lemma source_pool_accesses_locked : pool_table_ok Gen_pivot_footprint.pool_table = true.
+Proof. vm_compute. reflexivity. Qed.
+Lemma pool_table_ok_spec t : pool_table_ok t = true -> forall e, In e t -> pa_locked e = true /\ pa_fn e <> POtherFn.
+Proof.
+  unfold pool_table_ok. rewrite !andb_true_iff. intros [[[[[[H1 H2] _] _] _] _] _] e He.
+  rewrite forallb_forall in H1, H2. split; [apply H1; exact He |]. specialize (H2 e He). intro K. rewrite K in H2. discriminate.
+Qed.
+
 (* table_ok is exactly the discipline: watch accesses indexed by the loop variable under that variable's mutex, no other
    shared object *)
 Lemma table_ok_spec t : table_ok t = true ->
